@@ -862,12 +862,12 @@ _WH = "c04_wh(noise_map_native, kernel_native, nfs, {p}, {q})"
 
 def _nz_py(V, K, nfs, p, q):
     wh = MACROS_PY["c04_wh"]
-    return int(sum(1 for t in range(p, q) if abs(wh(V, K, nfs, p, t)) > 1e-9))
+    return int(sum(1 for t in range(p, q) if wh(V, K, nfs, p, t) != 0.0))
 
 
 def _part_py(V, K, nfs, p, c):
     wh = MACROS_PY["c04_wh"]
-    qs = [t for t in range(p, nfs.shape[0]) if abs(wh(V, K, nfs, p, t)) > 1e-9]
+    qs = [t for t in range(p, nfs.shape[0]) if wh(V, K, nfs, p, t) != 0.0]
     return qs[c] if 0 <= c < len(qs) else -1
 
 
@@ -975,7 +975,9 @@ def _g_preload(rng, tier):
         mask, data, noise, kernel, nfs = _native_case(rng, tier, zero_masked=rng.random() < 0.8)
         if rng.random() < 0.5:
             # exact arithmetic (powers of two) so that cancelling overlaps of signed kernels are exactly zero on both sides
-            noise = np.where(noise > 0, np.array([[rng.choice([0.5, 1.0, 2.0]) for _ in range(noise.shape[1])] for _ in range(noise.shape[0])]), 0.0)
+            # ... at very different magnitudes: an overlap of 2^-34 is as much a non-zero overlap as one of order 1
+            mag = 2.0 ** rng.choice([0, 0, -8, 12, 17])
+            noise = np.where(noise > 0, mag * np.array([[rng.choice([0.5, 1.0, 2.0]) for _ in range(noise.shape[1])] for _ in range(noise.shape[0])]), 0.0)
             kernel = np.array([[rng.choice([1.0, -2.0, 0.0, 0.5, -1.0]) for _ in range(kernel.shape[1])] for _ in range(kernel.shape[0])])
         yield {"noise_map_native": noise, "kernel_native": kernel, "native_index_for_slim_index": nfs}
 
